@@ -23,7 +23,8 @@
      QS <raw> {<key> <value>}       setQueryParams
      QE <s>                         url.QueryEscape, url.QueryUnescape
      QL <raw>                       the registry's lenient reading of a raw query
-     RR <scheme> <host> <base path> <base raw query> <ref>   net/url: base.Parse(ref) *)
+     RR <scheme> <host> <base path> <base raw query> <ref>   net/url: base.Parse(ref)
+     J <bytes>                      json.Decoder: end offset of the first (bracketed) value, or incomplete *)
 let z_of_int (i : int) : z =
   if i = 0 then Z0 else if i > 0 then Zpos (pos_of_int i) else Zneg (pos_of_int (- i))
 
@@ -232,6 +233,10 @@ let () =
     | [id; "QL"; raw] ->
       let kvs = List.stable_sort (fun (k1, _) (k2, _) -> compare (hex_of_str k1) (hex_of_str k2)) (parse_query_lenient (str_of_hex raw)) in
       Printf.printf "%s %s\n" id (match kvs with [] -> "_" | _ -> String.concat "&" (List.map (fun (k, v) -> hex_of_str k ^ "=" ^ hex_of_str v) kvs))
+    | [id; "J"; doc] ->
+      (match scan (str_of_hex doc) with
+       | Some m -> Printf.printf "%s OK %d\n" id (int_of_nat m)
+       | None -> Printf.printf "%s INC\n" id)
     | [id; "RR"; sch; host; bpath; bq; r] ->
       let base = { s_scheme = str_of_hex sch; s_host = str_of_hex host; s_path = str_of_hex bpath; s_query = str_of_hex bq } in
       (match resolve_ref base (str_of_hex r) with
